@@ -1,4 +1,5 @@
 import Pymeeus.Refine.Kepler
+import Pymeeus.Refine.TwoBody
 /-!
 # C11 — Kepler's equation is solved; two-body relations hold
 
@@ -8,7 +9,7 @@ pymeeus/Coordinates.py).  Angles are degree values, as in the model; `pradians x
 -/
 noncomputable section
 namespace Pymeeus.C11
-open Pymeeus Pymeeus.PR Pymeeus.GenR.Kepler Pymeeus.Refine.Kepler Real
+open Pymeeus Pymeeus.PR Pymeeus.GenR.Kepler Pymeeus.Refine.Kepler Pymeeus.Refine.TwoBody Real
 
 /-! ## Kepler's equation -/
 
@@ -249,5 +250,218 @@ theorem kepler_any_turns {e : ℝ} (he0 : 0 ≤ e) (he1 : e < 1) (M : ℝ) :
 example : ∃ E v, kepler_equation 0.99 2 = .ok (E, v) ∧
     ∃ k : ℤ, |E - 0.99 * pdegrees (Real.sin (pradians E)) - 2 - 360 * k| ≤ (1 + 0.99) * (90 / 2 ^ 34) :=
   kepler_residual (by norm_num) (by norm_num) 2
+
+
+/-! ## Vis-viva -/
+
+/-- "speed at r = a(1-e) equals the perihelion speed": the source uses two constants, 42.1218 (= k√2 in km/s) in
+    `velocity` and 29.7847 in `velocity_perihelion`; the exact ratio of the two results is `42.1218/(√2·29.7847)`,
+    which is within 1e-5 of 1. -/
+theorem vis_viva_perihelion {e a : ℝ} (he0 : 0 ≤ e) (he1 : e < 1) (ha : 0 < a) :
+    ∃ v1 vp, velocity (a * (1 - e)) a = .ok v1 ∧ velocity_perihelion e a = .ok vp ∧ 0 < vp ∧
+      v1 = 42.1218 / (Real.sqrt 2 * 29.7847) * vp ∧ |v1 / vp - 1| < 1e-5 := by
+  have hA : 0 < (1 + e) / (1 - e) := by apply div_pos <;> linarith
+  have hsA := Real.sqrt_pos.mpr hA
+  have hsa := Real.sqrt_pos.mpr ha
+  have hs2 : (0 : ℝ) < Real.sqrt 2 := by positivity
+  have hvp : 0 < 29.7847 * Real.sqrt ((1 + e) / (1 - e)) / Real.sqrt a := by positivity
+  have hrel : 42.1218 * (Real.sqrt ((1 + e) / (1 - e)) / (Real.sqrt 2 * Real.sqrt a))
+      = 42.1218 / (Real.sqrt 2 * 29.7847) * (29.7847 * Real.sqrt ((1 + e) / (1 - e)) / Real.sqrt a) := by
+    field_simp
+  refine ⟨_, _, velocity_peri_eq he0 he1 ha, velocity_perihelion_eq he0 he1 ha, hvp, hrel, ?_⟩
+  rw [hrel, mul_div_assoc, div_self hvp.ne', mul_one]
+  exact const_ratio_close
+
+/-- "… and a(1+e) equals the aphelion speed" (same exact ratio). -/
+theorem vis_viva_aphelion {e a : ℝ} (he0 : 0 ≤ e) (he1 : e < 1) (ha : 0 < a) :
+    ∃ v2 va, velocity (a * (1 + e)) a = .ok v2 ∧ velocity_aphelion e a = .ok va ∧
+      v2 = 42.1218 / (Real.sqrt 2 * 29.7847) * va ∧ (0 < va → |v2 / va - 1| < 1e-5) ∧ (0 < e → 0 < va) ∧ 0 ≤ va := by
+  have hA : 0 < (1 - e) / (1 + e) := by apply div_pos <;> linarith
+  have hsA := Real.sqrt_pos.mpr hA
+  have hsa := Real.sqrt_pos.mpr ha
+  have hs2 : (0 : ℝ) < Real.sqrt 2 := by positivity
+  have hva : 0 < 29.7847 * Real.sqrt ((1 - e) / (1 + e)) / Real.sqrt a := by positivity
+  have hrel : 42.1218 * (Real.sqrt ((1 - e) / (1 + e)) / (Real.sqrt 2 * Real.sqrt a))
+      = 42.1218 / (Real.sqrt 2 * 29.7847) * (29.7847 * Real.sqrt ((1 - e) / (1 + e)) / Real.sqrt a) := by
+    field_simp
+  refine ⟨_, _, velocity_aph_eq he0 he1 ha, velocity_aphelion_eq he0 he1 ha, hrel, ?_, fun _ => hva, hva.le⟩
+  intro _
+  rw [hrel, mul_div_assoc, div_self hva.ne', mul_one]
+  exact const_ratio_close
+
+/-- "whose product is the squared circular speed": perihelion × aphelion speed = 29.7847²/a exactly; the circular
+    speed `velocity(a, a)` squared is 42.1218²/(2a); the two agree to 1e-5 (ratio 2·29.7847²/42.1218²). -/
+theorem perihelion_aphelion_product {e a : ℝ} (he0 : 0 ≤ e) (he1 : e < 1) (ha : 0 < a) :
+    ∃ vp va vc, velocity_perihelion e a = .ok vp ∧ velocity_aphelion e a = .ok va ∧ velocity a a = .ok vc ∧
+      vp * va = 29.7847 ^ 2 / a ∧ vc ^ 2 = 42.1218 ^ 2 / (2 * a) ∧ |vp * va / vc ^ 2 - 1| < 1e-5 := by
+  have h1 : 0 < 1 - e := by linarith
+  have h2 : 0 < 1 + e := by linarith
+  have hsa := Real.sqrt_pos.mpr ha
+  have hprod : Real.sqrt ((1 + e) / (1 - e)) * Real.sqrt ((1 - e) / (1 + e)) = 1 := by
+    rw [← Real.sqrt_mul (by positivity)]
+    have : (1 + e) / (1 - e) * ((1 - e) / (1 + e)) = 1 := by field_simp
+    rw [this, Real.sqrt_one]
+  have haa : Real.sqrt a * Real.sqrt a = a := Real.mul_self_sqrt ha.le
+  have h22 : Real.sqrt 2 * Real.sqrt 2 = 2 := Real.mul_self_sqrt (by norm_num)
+  have e1 : 29.7847 * Real.sqrt ((1 + e) / (1 - e)) / Real.sqrt a * (29.7847 * Real.sqrt ((1 - e) / (1 + e)) / Real.sqrt a)
+      = 29.7847 ^ 2 / a := by
+    have : 29.7847 * Real.sqrt ((1 + e) / (1 - e)) / Real.sqrt a * (29.7847 * Real.sqrt ((1 - e) / (1 + e)) / Real.sqrt a)
+        = 29.7847 ^ 2 * (Real.sqrt ((1 + e) / (1 - e)) * Real.sqrt ((1 - e) / (1 + e))) / (Real.sqrt a * Real.sqrt a) := by
+      field_simp
+    rw [this, hprod, haa, mul_one]
+  have e2 : (42.1218 * (1 / (Real.sqrt 2 * Real.sqrt a))) ^ 2 = 42.1218 ^ 2 / (2 * a) := by
+    have : (42.1218 * (1 / (Real.sqrt 2 * Real.sqrt a))) ^ 2
+        = 42.1218 ^ 2 / ((Real.sqrt 2 * Real.sqrt 2) * (Real.sqrt a * Real.sqrt a)) := by
+      field_simp
+    rw [this, h22, haa]
+  refine ⟨_, _, _, velocity_perihelion_eq he0 he1 ha, velocity_aphelion_eq he0 he1 ha, velocity_circ_eq ha, e1, e2, ?_⟩
+  rw [e1, e2]
+  have : (29.7847 : ℝ) ^ 2 / a / (42.1218 ^ 2 / (2 * a)) = 2 * 29.7847 ^ 2 / 42.1218 ^ 2 := by
+    field_simp
+  rw [this]; norm_num [abs_lt]
+
+/-! ## Length of the orbit -/
+
+/-- "orbit length lies between the circumferences of the inscribed and circumscribed circles", for BOTH formulas
+    of the source and every `0 < b ≤ a` (so on either side of the switch). -/
+theorem length_bounds_both_formulas {a b : ℝ} (hb : 0 < b) (hab : b ≤ a) :
+    (∃ L, length_low a b = .ok L ∧ 2 * π * b ≤ L ∧ L ≤ 2 * π * a) ∧
+    (∃ L, length_high a b = .ok L ∧ 2 * π * b ≤ L ∧ L ≤ 2 * π * a) := by
+  have ha : 0 < a := by linarith
+  have hpi := Real.pi_pos
+  obtain ⟨l1, l2⟩ := low_bounds hb hab
+  obtain ⟨g1, g2⟩ := high_bounds hb hab
+  refine ⟨⟨_, length_low_eq ha hb.le, ?_, ?_⟩, ⟨_, length_high_eq ha hb.le, ?_, ?_⟩⟩
+  · rw [mul_div_assoc]; nlinarith
+  · rw [mul_div_assoc]; nlinarith
+  · nlinarith
+  · nlinarith
+
+/-- `length_orbit(e, a)` for `0 ≤ e < 1`, `a > 0`: `2πb ≤ L ≤ 2πa` with `b = a√(1−e²)`, whichever formula the
+    switch `e < 0.95` selects. -/
+theorem length_orbit_bounds {e a : ℝ} (he0 : 0 ≤ e) (he1 : e < 1) (ha : 0 < a) :
+    ∃ L, length_orbit e a = .ok L ∧ 2 * π * (a * Real.sqrt (1 - e * e)) ≤ L ∧ L ≤ 2 * π * a := by
+  have hee : e * e < 1 := by nlinarith
+  have hs : 0 < Real.sqrt (1 - e * e) := Real.sqrt_pos.mpr (by linarith)
+  have hs1 : Real.sqrt (1 - e * e) ≤ 1 := by
+    rw [Real.sqrt_le_left (by norm_num)]; nlinarith [mul_nonneg he0 he0]
+  have hb : 0 < a * Real.sqrt (1 - e * e) := mul_pos ha hs
+  have hab : a * Real.sqrt (1 - e * e) ≤ a := by nlinarith
+  obtain ⟨⟨L1, h1, h1a, h1b⟩, ⟨L2, h2, h2a, h2b⟩⟩ := length_bounds_both_formulas hb hab
+  rw [length_orbit_eq hee.le]
+  split
+  · exact ⟨L1, h1, h1a, h1b⟩
+  · exact ⟨L2, h2, h2a, h2b⟩
+
+/-! ## Phase angle and illuminated fraction -/
+
+/-- "phase angle and illuminated fraction satisfy k = (1 + cos i)/2" for triangle-feasible distances
+    (`|r − Δ| ≤ R ≤ r + Δ`: the hypothesis under which `acos` is defined). -/
+theorem illuminated_fraction_phase {r d R : ℝ} (hr : 0 < r) (hd : 0 < d) (h1 : |r - d| ≤ R) (h2 : R ≤ r + d) :
+    ∃ i k, phase_angle r d R = .ok i ∧ illuminated_fraction r d R = .ok k ∧
+      k = (1 + Real.cos (pradians i)) / 2 ∧ 0 ≤ i ∧ i ≤ 180 := by
+  obtain ⟨hc1, hc2⟩ := phase_cos_bounds hr hd h1 h2
+  have hpi := Real.pi_pos
+  refine ⟨_, _, phase_angle_eq hr hd h1 h2, illuminated_fraction_eq hr hd, ?_, ?_, ?_⟩
+  · rw [radians_degrees, Real.cos_arccos hc1 hc2]
+    field_simp; ring
+  · have := Real.arccos_nonneg ((r * r + d * d - R * R) / (2 * r * d)); positivity
+  · have := Real.arccos_le_pi ((r * r + d * d - R * R) / (2 * r * d))
+    calc Real.arccos ((r * r + d * d - R * R) / (2 * r * d)) * (180 / π) ≤ π * (180 / π) :=
+          mul_le_mul_of_nonneg_right this (by positivity)
+      _ = 180 := by field_simp
+
+example : ∃ i k, phase_angle 1 2 2.5 = .ok i ∧ illuminated_fraction 1 2 2.5 = .ok k ∧
+    k = (1 + Real.cos (pradians i)) / 2 ∧ 0 ≤ i ∧ i ≤ 180 :=
+  illuminated_fraction_phase (by norm_num) (by norm_num) (by norm_num [abs_le]) (by norm_num)
+
+
+/-! ## Passage through the nodes -/
+
+/-- "A computed node passage puts the body, via Kepler's equation at that time, at true anomaly −ω (ascending) or
+    180 − ω (descending)".  For `0 ≤ e < 1`, `a > 0`, any ω, T and a node whose true anomaly `v` is not ±180°
+    (`tan(v/2)` finite): `v ≡ −ω` resp. `180 − ω (mod 360)`; the eccentric anomaly `E'` the code uses is the one with
+    `tan(v/2) = sqrt((1+e)/(1−e)) tan(E'/2)`; the time satisfies `t − T = M/n` with `M = E' − e sin E'` (degrees) and
+    `n = 0.9856076686/a^(3/2)`; the radius vector obeys the orbit equation `r (1 + e cos v) = a (1 − e²)`; and
+    `kepler_equation` evaluated at the mean anomaly `n (t − T)` returns `E'` to within `(π/2)/2^34` rad. -/
+theorem node_passage_elliptic {e a : ℝ} (he0 : 0 ≤ e) (he1 : e < 1) (ha : 0 < a) (ω T : ℝ) (asc : Bool)
+    (hv : Real.cos (pradians (node_anomaly ω asc) / 2) ≠ 0) :
+    ∃ (t r E' : ℝ) (j : ℤ), passage_nodes_elliptic ω e a T asc = .ok (t, r) ∧
+      node_anomaly ω asc = (if asc then 0 else 180) - ω + 360 * j ∧
+      -π < E' ∧ E' < π ∧
+      Real.tan (pradians (node_anomaly ω asc) / 2) = Real.sqrt ((1 + e) / (1 - e)) * Real.tan (E' / 2) ∧
+      (t - T) * (0.9856076686 / (a * Real.sqrt a)) = pdegrees (E' - e * Real.sin E') ∧
+      r = a * (1 - e * Real.cos E') ∧
+      r * (1 + e * Real.cos (pradians (node_anomaly ω asc))) = a * (1 - e ^ 2) ∧
+      ∃ E v, kepler_equation e ((t - T) * (0.9856076686 / (a * Real.sqrt a))) = .ok (E, v) ∧
+        |pradians E - E'| ≤ (π / 2) / 2 ^ 34 := by
+  obtain ⟨j, hj⟩ := node_anomaly_congr ω asc
+  set v := node_anomaly ω asc with hvdef
+  set q := Real.sqrt ((1 - e) / (1 + e)) with hq
+  set Tn := Real.tan (pradians v / 2) with hT
+  have hpi := Real.pi_pos
+  have h1e : 0 < 1 - e := by linarith
+  have h1e' : 0 < 1 + e := by linarith
+  have hqq : Real.sqrt ((1 + e) / (1 - e)) * q = 1 := by
+    rw [hq, ← Real.sqrt_mul (by positivity)]
+    have : (1 + e) / (1 - e) * ((1 - e) / (1 + e)) = 1 := by field_simp
+    rw [this, Real.sqrt_one]
+  have hq2 : q ^ 2 = (1 - e) / (1 + e) := by rw [hq]; exact Real.sq_sqrt (by positivity)
+  have hsa := Real.sqrt_pos.mpr ha
+  have hn : (0.9856076686 : ℝ) / (a * Real.sqrt a) ≠ 0 := by positivity
+  have hE1 := Real.neg_pi_div_two_lt_arctan (q * Tn)
+  have hE2 := Real.arctan_lt_pi_div_two (q * Tn)
+  have htime : (T + (2 * Real.arctan (q * Tn) - e * Real.sin (2 * Real.arctan (q * Tn))) * (180 / π)
+        / (0.9856076686 / (a * Real.sqrt a)) - T) * (0.9856076686 / (a * Real.sqrt a))
+      = pdegrees (2 * Real.arctan (q * Tn) - e * Real.sin (2 * Real.arctan (q * Tn))) := by
+    unfold pdegrees; field_simp; ring
+  refine ⟨_, _, 2 * Real.arctan (q * Tn), j, passage_nodes_elliptic_eq he0 he1 ha ω T asc, hj,
+    by linarith, by linarith, ?_, htime, rfl, ?_, ?_⟩
+  · have : 2 * Real.arctan (q * Tn) / 2 = Real.arctan (q * Tn) := by ring
+    rw [this, Real.tan_arctan, ← mul_assoc, hqq, one_mul]
+  · -- orbit equation
+    rw [cos_two_arctan, cos_of_tan_half hv, ← hT, mul_pow, hq2]
+    have hT2 : 0 ≤ Tn ^ 2 := sq_nonneg _
+    have hd1 : 1 + (1 - e) / (1 + e) * Tn ^ 2 ≠ 0 := by
+      have : 0 ≤ (1 - e) / (1 + e) * Tn ^ 2 := by positivity
+      linarith
+    have hd2 : 1 + Tn ^ 2 ≠ 0 := by linarith
+    field_simp
+    ring
+  · rw [htime]
+    apply kepler_near_root he0 he1 _ (2 * Real.arctan (q * Tn)) 0 (by linarith) (by linarith)
+    unfold pdegrees
+    rw [radians_degrees]; simp
+
+/-- Parabolic orbit: the passage time satisfies Barker's equation in the form the code uses,
+    `t − T = 27.403895 (s³ + 3s) q^(3/2)` with `s = tan(v/2)`, `v ≡ −ω` resp. `180 − ω (mod 360)`, and the radius
+    vector obeys the equation of the parabola `r (1 + cos v) = 2q` (for `v ≠ ±180°`). -/
+theorem node_passage_parabolic {q : ℝ} (hq : 0 ≤ q) (ω T : ℝ) (asc : Bool)
+    (hv : Real.cos (pradians (node_anomaly ω asc) / 2) ≠ 0) :
+    ∃ (t r : ℝ) (j : ℤ), passage_nodes_parabolic ω q T asc = .ok (t, r) ∧
+      node_anomaly ω asc = (if asc then 0 else 180) - ω + 360 * j ∧
+      t - T = 27.403895 * (Real.tan (pradians (node_anomaly ω asc) / 2) ^ 3
+                + 3 * Real.tan (pradians (node_anomaly ω asc) / 2)) * (q * Real.sqrt q) ∧
+      r * (1 + Real.cos (pradians (node_anomaly ω asc))) = 2 * q := by
+  obtain ⟨j, hj⟩ := node_anomaly_congr ω asc
+  refine ⟨_, _, j, passage_nodes_parabolic_eq hq ω T asc, hj, by ring, ?_⟩
+  rw [cos_of_tan_half hv]
+  have hd2 : 1 + Real.tan (pradians (node_anomaly ω asc) / 2) ^ 2 ≠ 0 := by
+    have := sq_nonneg (Real.tan (pradians (node_anomaly ω asc) / 2)); linarith
+  field_simp
+  ring
+
+/-- The side condition of the node theorems is satisfiable: ω = 30°, ascending node, gives v = 330° − 360° … -/
+example : Real.cos (pradians (node_anomaly 30 true) / 2) ≠ 0 := by
+  have h1 : reduce_deg ((30 : ℝ) + -360.0) = -330 := by
+    rw [reduce_deg_small (by norm_num [abs_lt])]; norm_num
+  have h : node_anomaly 30 true = 330 := by
+    unfold node_anomaly angle_rsub angle_neg angle_sub angle_add
+    simp only [if_true]
+    rw [h1, reduce_deg_small (by norm_num [abs_lt])]; norm_num
+  rw [h]
+  have hc : Real.cos (pradians 330 / 2) = -Real.cos (pradians 330 / 2 - π) := by rw [Real.cos_sub_pi]; ring
+  rw [hc, neg_ne_zero]
+  apply (Real.cos_pos_of_mem_Ioo ⟨?_, ?_⟩).ne' <;> unfold pradians <;> nlinarith [Real.pi_pos]
 
 end Pymeeus.C11
